@@ -835,7 +835,7 @@ def split_variants(tpls, prefix="split_"):
 
 def _with_splits(fn):
     def wrapped(tier):
-        base = fn(tier)
+        base = fn(tier) + cross(tier).get(fn.__name__, [])
         return base + split_variants(base)
     wrapped.__name__ = fn.__name__
     wrapped.__doc__ = fn.__doc__
@@ -844,3 +844,61 @@ def _with_splits(fn):
 
 for _n in ("c01", "c02", "c03", "c04", "c05", "c06", "c07", "c28"):
     globals()[_n] = _with_splits(globals()[_n])
+
+
+# ------------------------------------------------------------------------------------------ cross-family compositions
+def cross(tier):
+    """compositions across operator families (an operator applied to the result of an operator of another family): the inner result only
+    exists as a sub-query, with the structure the transpiler derives for it"""
+    n = 2 if tier == "quick" else 3
+    out = {"c01": [], "c02": [], "c03": [], "c04": [], "c05": [], "c06": [], "c07": []}
+    gt0 = binop(">", "Me_1", 0)
+    s4 = lambda: agg("sum", "DS_4", "group by", ["Id_1"])  # noqa: E731
+    # element-wise over other families
+    out["c01"] += [T("x_plus_of_aggs", binop("+", s4(), agg("max", "DS_5", "group by", ["Id_1"])), 3),
+                   T("x_agg_plus_ds", binop("+", s4(), "DS_6"), 3),
+                   T("x_cmp_of_agg", binop(">", s4(), 2), 3),
+                   T("x_plus_of_filters", binop("+", filter_("DS_4", gt0), filter_("DS_5", gt0)), n),
+                   T("x_plus_of_union", binop("+", setop("union", ["DS_4", "DS_5"]), "DS_4"), n),
+                   T("x_abs_of_join", unop("abs", jbody(join("inner_join", [("DS_4", "d1"), ("DS_K", "d2")]), lambda j: keep(j, ["Me_1"]))), n),
+                   T("x_if_of_aggs", if_(binop(">", s4(), 0), s4(), agg("min", "DS_5", "group by", ["Id_1"])), 3),
+                   T("x_nvl_of_agg", binop("nvl", s4(), 0), 3),
+                   T("x_isnull_of_calc", unop("isnull", keep(calc("DS_1", [(None, "Me_9", binop("+", "Me_1", "Me_2"))]), ["Me_9"])), n)]
+    # clauses over other families
+    out["c02"] += [T("x_calc_on_agg", calc(s4(), [(None, "Me_9", binop("*", "Me_1", 2))]), 3),
+                   T("x_filter_on_agg", filter_(s4(), gt0), 3),
+                   T("x_rename_on_union", rename(setop("union", ["DS_4", "DS_5"]), [("Me_1", "Me_7")]), n),
+                   T("x_keep_on_binop", keep(binop("+", "DS_1", "DS_2"), ["Me_2"]), n),
+                   T("x_drop_on_binop", drop(binop("*", "DS_1", "DS_2"), ["Me_1"]), n),
+                   T("x_calc_on_analytic", calc(analytic("sum", "DS_4", partition_by=["Id_1"]), [(None, "Me_9", binop("+", "Me_1", 1))]), 3),
+                   T("x_sub_on_binop", sub(binop("+", "DS_4", "DS_5"), [("Id_2", "a")]), n),
+                   T("x_filter_on_setdiff", filter_(setop("setdiff", ["DS_4", "DS_5"]), gt0), n)]
+    # aggregations over other families
+    out["c03"] += [T("x_sum_of_filter", agg("sum", filter_("DS_4", gt0), "group by", ["Id_1"]), 3),
+                   T("x_sum_of_binop", agg("sum", binop("+", "DS_4", "DS_5"), "group by", ["Id_1"]), 3),
+                   T("x_count_of_union", agg("count", setop("union", ["DS_4", "DS_5"]), "group by", ["Id_1"]), 3),
+                   T("x_max_of_calc", agg("max", calc("DS_4", [(None, "Me_1", binop("*", "Me_1", 2))]), "group except", ["Id_2"]), 3),
+                   T("x_avg_of_rename", agg("avg", rename("DS_4", [("Me_1", "Me_7")]), "group by", ["Id_1"]), 3),
+                   T("x_sum_of_join", agg("sum", jbody(join("inner_join", [("DS_4", "d1"), ("DS_K", "d2")]), lambda j: keep(j, ["Me_1"])), "group by", ["Id_1"]), 2),
+                   T("x_min_of_sum", agg("min", agg("sum", "DS_7", "group by", ["Id_1", "Id_2"]), "group by", ["Id_1"]), 3),
+                   T("x_sum_of_unary", agg("sum", unop("abs", "DS_4"), "group by", ["Id_2"]), 3)]
+    # joins over other families
+    out["c04"] += [T("x_join_of_aggs", join("inner_join", [(s4(), "d1"), (agg("max", "DS_K", "group by", ["Id_1"]), "d2")]), 3),
+                   T("x_join_of_filter", join("left_join", [(filter_("DS_4", gt0), "d1"), ("DS_K", "d2")]), n),
+                   T("x_join_of_binop", join("inner_join", [(binop("+", "DS_4", "DS_5"), "d1"), ("DS_K", "d2")]), n),
+                   T("x_join_of_rename", join("full_join", [(rename("DS_4", [("Me_1", "Me_7")]), "d1"), ("DS_5", "d2")]), n)]
+    # set operators over other families
+    out["c05"] += [T("x_union_of_binops", setop("union", [binop("+", "DS_4", "DS_5"), binop("*", "DS_4", "DS_5")]), n),
+                   T("x_intersect_of_filters", setop("intersect", [filter_("DS_4", gt0), "DS_5"]), n),
+                   T("x_setdiff_of_aggs", setop("setdiff", [s4(), agg("sum", "DS_5", "group by", ["Id_1"])]), 3),
+                   T("x_union_of_renames", setop("union", [rename("DS_4", [("Me_1", "Me_7")]), rename("DS_5", [("Me_1", "Me_7")])]), n),
+                   T("x_exists_in_of_agg", exists_in("DS_4", s4()), 3)]
+    # analytic over other families
+    out["c06"] += [T("x_an_sum_of_filter", analytic("sum", filter_("DS_4", gt0), partition_by=["Id_1"]), 3),
+                   T("x_an_max_of_binop", analytic("max", binop("+", "DS_4", "DS_5"), partition_by=["Id_1"]), 3),
+                   T("x_an_count_of_union", analytic("count", setop("union", ["DS_4", "DS_5"]), partition_by=["Id_1"]), 3)]
+    # validation over other families
+    out["c07"] += [T("x_check_of_binop_cmp", check(binop(">", binop("+", "DS_4", "DS_5"), 0), error_code="E1", error_level=2), n, structs=POOL),
+                   T("x_check_of_agg_cmp", check(binop(">", s4(), 0), invalid=True), 3, structs=POOL),
+                   T("x_check_imbalance_of_aggs", check(binop(">=", s4(), agg("sum", "DS_5", "group by", ["Id_1"])), imbalance=binop("-", s4(), agg("sum", "DS_5", "group by", ["Id_1"]))), 3, structs=POOL)]
+    return out
